@@ -63,7 +63,7 @@ func runScenarios(run *ev.Run, defs []srvScenarioDef, bound int, p *pool.Pool) (
 			ok = false
 		}
 		for _, v := range st.Violations {
-			run.Violation(v.Sig, map[string]interface{}{"scenario": d, "schedule": v.Schedule, "trace": v.Trace, "detail": v.Detail})
+			run.Violation(v.Sig, map[string]interface{}{"scenario": d, "schedule": v.Schedule, "trace": v.Trace, "detail": v.Detail, "replay": mkReplay("explore1", exploreOneJob{Scenario: "srv", Arg: mustJSON(d), Schedule: v.Schedule})})
 		}
 		if st.StepCapHit > 0 || st.CapHit {
 			run.NotExhaustive("execution or step cap hit in " + d.Name)
@@ -109,7 +109,7 @@ func finishScenarios(run *ev.Run, execs, nScen, bound int, extraRule string) {
 
 func init() {
 	checks["C13"] = func(tier string) int {
-		run := ev.NewRun("C13", tier, "model_checking")
+		run := newRun("C13", tier, "model_checking")
 		bound := 2
 		if tier == "thorough" {
 			bound = -1
@@ -162,3 +162,8 @@ func init() {
 }
 
 var _ = json.Marshal
+
+func mustJSON(v interface{}) json.RawMessage {
+	b, _ := json.Marshal(v)
+	return b
+}
